@@ -610,6 +610,10 @@ EXTRA_SCENARIOS = [
     ("read(path str)", "read", "x_read_ignore_header_errors", _rd("hdrerror.las", ignore_header_errors=True)),
     ("write(path)", "write", "x_write_fmt", _wr("plain", fmt="%.3f", len_numeric_field=12)),
     ("to_csv(path)", "to_csv", "x_to_csv_nounits", _csv("plain", units=False, mnemonics=False)),
+    ("lasio.read(path str)", "read", "x_top_read_normal_engine", _top("plain.las", engine="normal")),
+    ("lasio.read(path str)", "read", "x_top_read_latin1", _top("latin1.las", autodetect_encoding=False)),
+    ("lasio.LASFile(pathlib.Path)", "read", "x_top_lasfile_path", _top("plain.las", how="LASFile", as_path=True)),
+    ("convert_version(in, out)", "convert_version", "x_convert_version_wrapped", _cv("wrapped.las")),
 ]
 SC_BY_NAME = {s[2]: s for s in SCENARIOS + EXTRA_SCENARIOS}
 # skel_convert_version renders `lasio.read(..)` and `las.write(f, ..)` as MayRaise (calls of functions proved leak-free
